@@ -696,8 +696,14 @@ class Rules:
                 x = evs[j]
                 if x.kind == "lookbehind" and x.d.get("epoch") == ep:
                     if x.d.get("accessor") == acc:
-                        guarded = True
-                        break
+                        # the test must have come out *positive* on this path: the token is known to be of the
+                        # type(s) that are meant to be re-typed, not merely "not something else"
+                        v = x.d.get("value")
+                        tt = Term("field:token_type", (Term("Some.0", (v,), None),)) if v is not None else None
+                        f = st.vfacts.get(tt.key()) if tt is not None else None
+                        if f is not None and f[0] is not None:
+                            guarded = True
+                            break
                 if x.kind in ("emit", "insert_token", "buffer_rollback"):
                     break
             if not guarded:
@@ -1861,6 +1867,8 @@ def ws_order_obs(summaries, exempt):
 
 # -- R-FRAME-BALANCE: pending-statement frames and the macro nesting level are opened/closed only by their keywords --
 FRAME_KW = {"KwmDo": (1, 0), "KwmEnd": (-1, 0), "KwmMacro": (1, 1), "KwmMend": (-1, -1)}
+# modes whose handler looks behind at the last DEFAULT token and asserts / relies on its type
+PUSH_ORIGIN = {"MacroDo": {"KwmDo"}, "MacroLocalGlobal": {"KwmLocal", "KwmGlobal"}, "MaybeMacroCallArgsOrLabel": {"MacroIdentifier"}}
 
 
 def _nest_delta(e):
@@ -1908,6 +1916,37 @@ def frame_summary(I, mode, outs):
                 m = e.d.get("mode")
                 if isinstance(m, Enum) and m.variant == "MacroDo":
                     res["macrodo_pushed_by"].append(sorted(kws))
+        # R-PUSH-ORIGIN data: what was the last DEFAULT token emitted before a look-behind-dependent mode was pushed,
+        # and which modes were pushed above it in the same step
+        last_def = None
+        for i_, e in enumerate(st.events):
+            if e.kind == "emit":
+                cs = variant_set(I, st, e.d["channel"]) or set()
+                if cs == {"DEFAULT"}:
+                    last_def = sorted(variant_set(I, st, e.d["type"]) or ["?"])
+                elif "DEFAULT" in cs or not cs:
+                    last_def = ["?"]
+                if mode == "WsOrCStyleCommentOnly" and ("DEFAULT" in cs or not cs):
+                    res.setdefault("ws_default_emits", []).append(F.file_line(e.d.get("osite") or e.site or "?"))
+            elif e.kind == "push":
+                m = e.d.get("mode")
+                if isinstance(m, Enum) and m.variant in PUSH_ORIGIN:
+                    flag_ok = True
+                    if m.variant == "MaybeMacroCallArgsOrLabel":
+                        fv = m.fields.get("check_macro_label")
+                        flag_ok = not (isinstance(fv, Const) and fv.v is False)     # only the label-checking form looks behind
+                    above = []
+                    for x in st.events[i_ + 1:]:
+                        if x.kind == "push":
+                            mm = x.d.get("mode")
+                            above.append(mm.variant if isinstance(mm, Enum) else "?")
+                        elif x.kind in ("pop", "stack_truncate"):
+                            above.append("<%s>" % x.kind)
+                        elif x.kind == "stack_insert" and (x.d.get("at") is None or x.d["at"] >= e.d.get("depth", 0)):
+                            above.append("<stack_insert>")      # (inserts below the mode do not come between)
+                    if flag_ok:
+                        res.setdefault("push_origin", []).append([m.variant, last_def, above, short_fn(e.d.get("owner") or e.fn or "?"),
+                                                                  F.file_line(e.d.get("osite") or e.site or "?")])
         site = ""
         for e in st.events:
             if e.kind == "arm" and e.fn not in ("Lexer::lex_token", "Lexer::mode") and not e.d["match"].get("exp"):
@@ -1990,7 +2029,32 @@ def frame_balance_obs(summaries):
     for k in FRAME_KW:
         if k not in seen_kw:
             ob("%s|anchor" % k, False, "no lex_token path emits %s" % k)
-    return list(obs.values()), n
+    # R-PUSH-ORIGIN (reported under its own rule name)
+    po = {}
+
+    def pob(key, ok, detail, site=""):
+        cur = po.get(key)
+        if cur is None or (cur["ok"] and not ok):
+            po[key] = {"rule": "R-PUSH-ORIGIN", "key": key, "ok": ok, "site": site, "detail": detail, "n": 1, "modes": []}
+    seen_modes = set()
+    for s in summaries:
+        for mv, last_def, above, fn, site in s.get("push_origin", []):
+            seen_modes.add(mv)
+            want = PUSH_ORIGIN[mv]
+            ok1 = last_def is not None and set(last_def) <= want
+            ok2 = all(a == "WsOrCStyleCommentOnly" for a in above)
+            pob("%s|%s" % (mv, fn), ok1 and ok2,
+                "mode %s is pushed right after the DEFAULT token %s, with only the whitespace/comment skipper above it" % (mv, sorted(want)) if ok1 and ok2 else
+                "mode %s (whose handler relies on the previous DEFAULT token being %s) is pushed after %s with %s pushed above it: "
+                "its look-behind assertion / retype can meet a different token" % (mv, sorted(want), last_def, above), site)
+        for site in s.get("ws_default_emits", []):
+            pob("WsOrCStyleCommentOnly|default-emission", False,
+                "the whitespace/comment skipper can emit a DEFAULT-channel token: a look-behind through it sees a different token", site)
+    pob("WsOrCStyleCommentOnly|hidden-only", True, "the whitespace/comment skipper emits nothing on the DEFAULT channel")
+    for mv in PUSH_ORIGIN:
+        if mv not in seen_modes:
+            pob("%s|anchor" % mv, False, "no path pushes mode %s" % mv)
+    return list(obs.values()) + list(po.values()), n
 
 
 # -- R-BOM-ORDER (LEA): what Lexer::new does with a leading byte-order mark -----------------------------------------
